@@ -837,15 +837,21 @@ impl<'a> Searcher<'a> {
         }
         
         if let Some(ref _function) = column_expr.function {
-            let result =
+            let mut result =
                 self.get_function_value(entry, file_info, file_map, buffer_data, column_expr);
+            if column_expr.minus {
+                result = Self::negate_value(result);
+            }
             file_map.insert(column_expr_str, result.to_string());
             return result;
         }
 
         if let Some(ref field) = column_expr.field {
             if entry.is_some() {
-                let result = self.get_field_value(entry.unwrap(), file_info, field);
+                let mut result = self.get_field_value(entry.unwrap(), file_info, field);
+                if column_expr.minus {
+                    result = Self::negate_value(result);
+                }
                 file_map.insert(column_expr_str, result.to_string());
                 return result;
             } else if let Some(val) = file_map.get(&field.to_string()) {
@@ -882,6 +888,15 @@ impl<'a> Searcher<'a> {
         }
 
         result
+    }
+
+    /// Applies a leading minus to the value of a column or a function call
+    fn negate_value(value: Variant) -> Variant {
+        match value.get_type() {
+            VariantType::Int => Variant::from_int(-value.to_int()),
+            VariantType::Float => Variant::from_float(-value.to_float()),
+            _ => Variant::from_signed_string(&value.to_string(), true),
+        }
     }
 
     fn get_function_value(
